@@ -6,12 +6,16 @@ package trzsz
 // TransferObs.tla (observables) and TransferTrace.tla (message level).
 
 import (
+	"bytes"
 	"encoding/json"
 	"fmt"
 	"math/rand"
 	"os"
+	"os/exec"
 	"path/filepath"
+	"strings"
 	"syscall"
+	"time"
 )
 
 func init() {
@@ -19,6 +23,7 @@ func init() {
 	vRegister("e2e_replay", e2eReplay)
 	vRegister("c01_nofile", c01Nofile)
 	vRegister("c01_resume", c01Resume)
+	vRegister("c01_process", c01Process)
 }
 
 var c01Sizes = []int64{0, 1, 511, 512, 513, 1023, 1024, 1025, 4096, 70000, 128*1024 - 1, 128 * 1024, 128*1024 + 1, 300000, 1 << 20}
@@ -285,4 +290,148 @@ func c01Resume(d *vCtx) error {
 		return err
 	}
 	return vWriteJSON(d.path("details.json"), details)
+}
+
+// c01Process: the real trz / tsz binaries (built from the working tree by the check) under a real
+// NewTrzszFilter with its pumps: trigger printed by the server process, detected by the filter,
+// handleTrzsz started by the pump, input wrapped by wrapTransferInput in the server process.
+func c01Process(d *vCtx) error {
+	bin := d.pStr("bindir", "")
+	runs := d.pInt("runs", 12)
+	shards := d.pInt("shards", 12)
+	return vShards(d, shards, func(si, n int) error {
+		base := e2eShmBase()
+		defer os.RemoveAll(base)
+		tr, err := vNewTrace(d.path("obs.ndjson"))
+		if err != nil {
+			return err
+		}
+		var details []map[string]any
+		for id := si; id < runs; id += n {
+			rid := 920000 + id
+			r := d.rng(int64(rid))
+			upload := id%2 == 0
+			binary := (id/2)%2 == 0
+			directory := (id/4)%2 == 0
+			overwrite := r.Intn(2) == 0
+			work := e2eWorkDir(base, rid)
+			srcRoot, dst := filepath.Join(work, "src"), filepath.Join(work, "dst")
+			_ = os.MkdirAll(dst, 0755)
+			nodes, _ := c01Tree(r, directory, overwrite, false)
+			tops, err := e2eMakeTree(srcRoot, nodes, d.seed+int64(rid))
+			if err != nil {
+				return err
+			}
+			e2eSrcCache = map[string]map[string]e2eEntry{}
+			for _, t := range tops {
+				if s := e2eSourceSnapshot(t); s != nil {
+					e2eSrcCache[t] = s
+				}
+			}
+			var args []string
+			if binary {
+				args = append(args, "-b")
+			}
+			if directory {
+				args = append(args, "-d")
+			}
+			if overwrite {
+				args = append(args, "-y")
+			}
+			args = append(args, "-t", "20", "-B", []string{"1K", "64K", "10M"}[r.Intn(3)])
+			var cmd *exec.Cmd
+			if upload {
+				cmd = exec.Command(filepath.Join(bin, "trz"), append(args, dst)...)
+			} else {
+				cmd = exec.Command(filepath.Join(bin, "tsz"), append(args, tops...)...)
+			}
+			cmd.Env = append(os.Environ(), "TMUX=", "TERM=xterm")
+			cmd.Env = e2eDropEnv(cmd.Env, "TMUX")
+			stdin, _ := cmd.StdinPipe()
+			stdout, _ := cmd.StdoutPipe()
+			var stderr bytes.Buffer
+			cmd.Stderr = &stderr
+			if err := cmd.Start(); err != nil {
+				return err
+			}
+			clientIn := &e2eChanReader{ch: make(chan []byte)}
+			sink := &e2eSink{}
+			f := NewTrzszFilter(clientIn, sink, stdin, stdout, TrzszOptions{TerminalColumns: 100})
+			var upRes <-chan error
+			if upload {
+				upRes, err = f.OneTimeUpload(tops)
+				if err != nil {
+					return err
+				}
+			} else {
+				f.SetDefaultDownloadPath(dst)
+			}
+			t0 := time.Now()
+			done := make(chan error, 1)
+			go func() { done <- cmd.Wait() }()
+			var werr error
+			hung := false
+			select {
+			case werr = <-done:
+			case <-time.After(60 * time.Second):
+				hung = true
+				_ = cmd.Process.Kill()
+			}
+			cok := false
+			if upload {
+				select {
+				case e := <-upRes:
+					cok = e == nil
+				case <-time.After(2 * time.Second):
+				}
+			} else {
+				cok = strings.Contains(sink.String(), "Saved")
+			}
+			shownText := sink.String()
+			names, shownOK := e2eParseSaved(shownText)
+			entries, allSame, extra := e2eCompare(tops, names, dst, map[string]e2eEntry{})
+			nsame := 0
+			for _, e := range entries {
+				if e["got"] == "same" {
+					nsame++
+				}
+			}
+			res := func(b bool) string {
+				if b {
+					return "ok"
+				}
+				return "fail"
+			}
+			tr.Emit(map[string]any{"e": "reset", "run": rid, "upload": upload, "proto": 4, "binary": binary, "overwrite": overwrite,
+				"directory": directory, "windows": false, "nfaults": 0, "stop": "none", "stopdel": false, "pause": false, "silence": false,
+				"timeout": 20, "fkind": "none", "prehs": false, "files": []any{}}, nil)
+			tr.Emit(map[string]any{"e": "ret", "run": rid, "role": "C", "res": res(cok), "hung": false, "ms": time.Since(t0).Milliseconds(),
+				"since": -1, "told": false, "msg": ""}, nil)
+			tr.Emit(map[string]any{"e": "ret", "run": rid, "role": "V", "res": res(werr == nil && !hung), "hung": hung,
+				"ms": time.Since(t0).Milliseconds(), "since": -1, "told": false, "msg": e2eFirstLine(stderr.String())}, nil)
+			tr.Emit(map[string]any{"e": "fs", "run": rid, "n": len(entries), "nsame": nsame, "allsame": allSame && len(entries) > 0,
+				"extra": len(extra), "touched": 0, "shown": shownOK, "nshown": len(names), "ntops": len(tops), "npresent": 0, "keptok": true,
+				"verified": 0, "mutapplied": false, "vmgrow": 0, "pdata": 0, "pkeep": 0, "dataafter": 0, "pausems": 0}, nil)
+			details = append(details, map[string]any{"case": map[string]any{"id": rid, "opts": map[string]any{"upload": upload, "binary": binary,
+				"directory": directory, "overwrite": overwrite}, "process": true}, "entries": entries, "extra": extra, "shown": names,
+				"server_err": e2eFirstLine(stderr.String()), "client_err": ""})
+			close(clientIn.ch)
+			os.RemoveAll(work)
+			d.add("runs", 1)
+		}
+		if err := tr.Close(); err != nil {
+			return err
+		}
+		return vWriteJSON(d.path("details.json"), details)
+	})
+}
+
+func e2eDropEnv(env []string, key string) []string {
+	var res []string
+	for _, e := range env {
+		if !strings.HasPrefix(e, key+"=") {
+			res = append(res, e)
+		}
+	}
+	return res
 }
